@@ -745,7 +745,10 @@ void initShard(Run& run) {
 Verdict prop(Tape& t, Run& run) {
 	if (t.peek() == kWarmMarker) {
 		t.u8();
-		warmUp(t.u8() % 6);
+		uint8_t w = t.u8() % 6;
+		// (test switch for the driver's shard re-run path: pretend the warm-up was not recorded)
+		if (!(run.replaying && getenv("VF_TEST_IGNORE_WARMUP_IN_REPLAY")))
+			warmUp(w);
 	}
 	Case c = decodeCase(t);
 	const bool isOB = c.vclass == V_OB;
